@@ -315,7 +315,7 @@ def startIn (X : Ext) (s : Ctx) : StartIn where
 /-- the writes of `xmp_start_player` after `libxmp_mixer_on` and `libxmp_reset_flow` -/
 def startWrite (a : StartIn) (base : Ctx) : Ctx
   | .p_master_vol | .p_smix_vol => cst 100
-  | .p_pos | .p_row | .p_loop_count | .p_sequence => cst 0
+  | .p_pos | .p_row | .p_loop_count | .p_sequence | .p_filter => cst 0
   | .p_frame => cst (-1)
   | .p_ord => cst a.ord
   | .m_mod_len => cst a.len
@@ -416,7 +416,7 @@ def MixerWrites : Field → Bool
 
 /-- written by `xmp_start_player` after `libxmp_mixer_on` (including `libxmp_reset_flow`) -/
 def StartWrites : Field → Bool
-  | .p_master_vol | .p_smix_vol | .p_pos | .p_row | .p_loop_count | .p_sequence | .p_frame | .p_ord | .m_mod_len
+  | .p_master_vol | .p_smix_vol | .p_pos | .p_row | .p_loop_count | .p_sequence | .p_filter | .p_frame | .p_ord | .m_mod_len
   | .p_channel_mute | .p_channel_vol
   | .p_inject_event_note | .p_inject_event_ins | .p_inject_event_vol | .p_inject_event_fxt
   | .p_inject_event_fxp | .p_inject_event_f2t | .p_inject_event_f2p | .p_inject_event_flag
